@@ -134,3 +134,132 @@ class Translate(Contract):
         yield "offsets", z3.And(z3.Select(z3.Select(O.dom, deg), a.scale.ref), z3.Select(z3.Select(O.dom, a.scale.ref), deg),
                                 oval(deg, a.scale.ref) == -off, oval(a.scale.ref, deg) == off)
         yield "memo-forgotten", z3.BoolVal({"measured.conversions._plan_conversion", "measured.conversions._find_path"} <= set(c.st.cleared))
+
+
+# ---------------------------------------------------------------------------------------------
+# convert: applies the plan (C04, C05, C10).  Ghost folds over sequences of unknown length:
+#   APk(path, k, e, x)  value after the first k hops of `path` applied to x with plan exponent e
+#   APLk(plan, k, x)    value after the first k plan entries
+# with the unfolding equations below (instances are supplied by the loop specs) and the affine
+# lemma  APLk(plan, k, x) = APLA(plan, k) * x + APLB(plan, k)  (lemmas/Affine.lean).
+
+from pyvc.ops import rpow  # noqa: E402
+from .c_unit import Loop  # noqa: E402
+
+HOP = ("tup", [("num",), ("num",), T_UNIT])
+ENTRY = ("tup", [("num",), ("seq", HOP), ("int",)])
+PLAN_T = ("seq", ENTRY)
+_hop, _entry, _path_s, _plan_s = sort_of(HOP), sort_of(ENTRY), sort_of(("seq", HOP)), sort_of(PLAN_T)
+hop_scale = lambda h: Num.nval(_hop.accessor(0, 0)(h))
+hop_offset = lambda h: Num.nval(_hop.accessor(0, 1)(h))
+ent_ratio = lambda en: Num.nval(_entry.accessor(0, 0)(en))
+ent_path = lambda en: _entry.accessor(0, 1)(en)
+ent_exp = lambda en: _entry.accessor(0, 2)(en)
+
+APk = z3.Function("APk", _path_s, I, I, R, R)
+APLk = z3.Function("APLk", _plan_s, I, R, R)
+APLA = z3.Function("APLA", _plan_s, I, R)
+APLB = z3.Function("APLB", _plan_s, I, R)
+PLAN = z3.Function("PLAN", U, U, _plan_s)  # ghost: the plan the (memoised, deterministic) planner returns
+
+
+def AP(path, e, x):
+    return APk(path, z3.Length(path), e, x)
+
+
+def APL(plan, x):
+    return APLk(plan, z3.Length(plan), x)
+
+
+def wf_plan(plan):
+    """every ratio and every hop scale of the plan is a positive number (ratios come from _div of
+    non-zero magnitudes; the planner only multiplies and inverts them)"""
+    k, j = z3.Int("k!w0"), z3.Int("j!w0")
+    return z3.ForAll([k], z3.Implies(z3.And(k >= 0, k < z3.Length(plan)), z3.And(
+        ent_ratio(plan[k]) > 0, Num.nkind(_entry.accessor(0, 0)(plan[k])) != K_DEC,
+        z3.ForAll([j], z3.Implies(z3.And(j >= 0, j < z3.Length(ent_path(plan[k]))), z3.And(
+            hop_scale(ent_path(plan[k])[j]) > 0, Num.nkind(_hop.accessor(0, 0)(ent_path(plan[k])[j])) != K_DEC,
+            Num.nkind(_hop.accessor(0, 1)(ent_path(plan[k])[j])) != K_DEC))))))
+
+
+@contract
+class PlanConversion(Contract):
+    """_plan_conversion: TRUSTED.  The heuristic planner is outside the verifier's reach; this contract is
+    the assumption every conversion proof rests on, and the bounded stand-ins of C04/C05 test exactly it:
+    the returned plan is well formed and, for offset-free units, applying it multiplies by
+    size(start without prefix) / size(end)."""
+    qual = "measured.conversions._plan_conversion"
+    props = ("C04", "C05", "C10")
+    trusted = True
+    inv = ("I_D", "I_P", "I_U")
+    modifies = _UnitBin.modifies + ("new:Quantity",)
+    ret = PLAN_T
+
+    def requires(self, c, a):
+        yield "wf-start", wf_unit(c, a.start)
+        yield "wf-end", wf_unit(c, a.end)
+
+    def raises(self, c, a):
+        yield "ConversionNotFound", noconv(c.f(a.start, "factors"), c.f(a.end, "factors")), "no-path"
+
+    def ensures(self, c, a, r):
+        o = c.old
+        n = z3.Length(r.z)
+        yield "is-the-plan", r.z == PLAN(a.start.ref, a.end.ref)
+        yield "well-formed", wf_plan(r.z)
+        offs = z3.And(offset_free_m(o.f(a.start, "factors")), offset_free_m(o.f(a.end, "factors")))
+        yield "planner-assumption", z3.Implies(offs, z3.And(APLA(r.z, n) * size(o, a.end.ref) == bsize(o.f(a.start, "factors")), APLB(r.z, n) == 0))
+        for t in ("Unit._known", "Prefix._known", "Dimension._known"):
+            yield "table-grows-" + t, same_table_grows(c, t)
+        u = z3.Const("u!pc", U)
+        yield "units-unchanged", z3.ForAll([u], z3.Implies(o.alivez("Unit", u), z3.And(
+            c.fz("Unit", u, "prefix") == o.fz("Unit", u, "prefix"), c.fz("Unit", u, "factors") == o.fz("Unit", u, "factors"))))
+
+
+class ConvertOuter(Loop):
+    """for ratio, path, exponent in plan: magnitude == APLk(plan, i, m0)"""
+
+    def inv(self, c, e, i):
+        from .c_quantity import mval as qmval
+        m0 = qmval(c, e.this)
+        yield "applied-prefix-of-plan", to_real(e.magnitude) == APLk(e.plan.z, i, m0)
+        yield "decimal-kept", z3.Implies(Num.nkind(c.f(e.this, "magnitude")) == K_DEC, kind_of(e.magnitude) == K_DEC)
+
+    def lemmas(self, c, e, i, _k):
+        from .c_quantity import mval as qmval
+        plan = e.plan.z
+        m0 = qmval(c, e.this)
+        yield APLk(plan, z3.IntVal(0), m0) == m0
+        # affine lemma (lemmas/Affine.lean): applying k plan entries is x |-> A*x + B
+        yield APLk(plan, i, m0) == APLA(plan, i) * m0 + APLB(plan, i)
+        yield z3.Implies(z3.And(i >= 0, i < z3.Length(plan)),
+                         APLk(plan, i + 1, m0) == AP(ent_path(plan[i]), ent_exp(plan[i]), APLk(plan, i, m0) * ent_ratio(plan[i])))
+
+
+class ConvertInner(Loop):
+    """for scale, offset, _ in path: magnitude == APk(path, j, exponent, value at loop entry)"""
+
+    def inv(self, c, e, j):
+        m_in = to_real(c.old.st.env["magnitude"])
+        yield "applied-prefix-of-path", to_real(e.magnitude) == APk(e.path.z, j, e.exponent.z, m_in)
+        yield "decimal-kept", z3.Implies(kind_of(c.old.st.env["magnitude"]) == K_DEC, kind_of(e.magnitude) == K_DEC)
+
+    def lemmas(self, c, e, j, _k):
+        m_in = to_real(c.old.st.env["magnitude"])
+        path, ex = e.path.z, e.exponent.z
+        yield APk(path, z3.IntVal(0), ex, m_in) == m_in
+        yield z3.Implies(z3.And(j >= 0, j < z3.Length(path)),
+                         APk(path, j + 1, ex, m_in) == APk(path, j, ex, m_in) * rpow(hop_scale(path[j]), ex) + hop_offset(path[j]))
+
+
+def to_real(v):
+    from pyvc.ops import to_num
+    return to_num(v).val
+
+
+def kind_of(v):
+    from pyvc.ops import to_num
+    return to_num(v).kind
+
+
+LOOPS = {("measured.conversions.convert", 0): ConvertOuter(), ("measured.conversions.convert", 1): ConvertInner()}
